@@ -207,6 +207,12 @@ class Check(PropertyCheck):
             ang = case['angle'][0] * u.Unit(case['angle'][1])
             out = {}
             try:
+                if int(abs(case['o'][0]) * 1e6) % 3 == 0:
+                    # the angle OBJECT was used before with another value and then changed in place (exactly: doubling
+                    # and halving are exact), as in `angle = 0*u.deg; for ...: angle += step; reg.rotate(pivot, angle)`
+                    ang = ang * 2
+                    reg.rotate(o, ang)
+                    ang /= 2
                 r2 = reg.rotate(o, ang)
                 r3 = r2.rotate(o, -ang)
             except Exception as e:
